@@ -58,6 +58,7 @@ fn gen_ops_watermark(rng: &mut Rng) -> (Vec<DOp>, usize) {
     for i in 0..k {
         let mut spec = DocSpec::generate(rng);
         spec.name = 10 + i as u8; // distinct: every add succeeds and owns its id
+        spec.codes = vec![];
         ops.push(DOp::Add(spec));
     }
     if rng.bool() {
@@ -73,6 +74,7 @@ fn gen_ops_watermark(rng: &mut Rng) -> (Vec<DOp>, usize) {
             _ => {
                 let mut spec = DocSpec::generate(rng);
                 spec.name = 200 + rng.below(20) as u8;
+                spec.codes = vec![];
                 DOp::Add(spec)
             }
         });
@@ -147,7 +149,7 @@ pub fn generate_seq(case_seed: u64, idx: u64, tier: Tier, flavor: &str) -> SeqCa
         _ => rng.range(3, if tier == Tier::Thorough { 14 } else { 10 }) as usize,
     };
     if flavor == "c04" {
-        knobs.indexes |= IX_NAME | IX_AGE_SCORE | IX_TAGS;
+        knobs.indexes |= IX_NAME | IX_AGE_SCORE | IX_TAGS | IX_CODES;
     }
     let bias = flavor == "c04" || rng.chance(1, 3);
     let ops = gen_ops_reindex(&mut rng, n, bias);
@@ -622,7 +624,7 @@ pub fn shrink_seq(case: &SeqCase) -> Vec<SeqCase> {
         c.knobs.indexes = IX_ALL;
         out.push(c);
     }
-    for bit in [IX_VEC, IX_BODY, IX_AGE_SCORE, IX_TAGS, IX_SCORE, IX_AGE] {
+    for bit in [IX_VEC, IX_BODY, IX_CODES, IX_AGE_SCORE, IX_TAGS, IX_SCORE, IX_AGE] {
         if case.knobs.indexes & bit != 0 {
             let mut c = case.clone();
             c.knobs.indexes &= !bit;
